@@ -15,7 +15,7 @@ Definition in_domain_target (t : pv) : bool :=
 (* the frames every recipient must get for this emit (no callback) *)
 Definition emit_pieces (c : cfg) (event data : pv) (ns : str) : Res (list pv) :=
   p <- ctor (uses_binary c) EVENT (PList (event :: pack data)) (Some ns) None None ;;
-  enc <- encode p ;; Ok (pieces_of enc).
+  encode_pieces c p.
 
 Definition count_str (x : str) (l : list str) : nat := List.length (filter (str_eqb x) l).
 
